@@ -95,6 +95,24 @@ class Sc:
         return "\n".join(out) + "\n"
 
 
+def without_observation_refs(sc):
+    """same scenario, but the harness gives up its observation reference right after every registration: the handle
+    handed out by m_mod_register() is then the only user reference, so memory really goes away when the scenario lets go
+    of a module (the state-based oracles go blind on such a scenario; C04 judges it by sanitizer and allocator only)"""
+    def tr(ops):
+        out = []
+        for op in ops:
+            out.append(op)
+            if op[0] == "reg":
+                out.append(("obs_drop_keep_handle", op[1]))
+        return out
+    sc.main = tr(sc.main)
+    for d in sc.cbs.values():
+        d["ops"] = tr(d["ops"])
+    sc.note += " [no observation references]"
+    return sc
+
+
 DRV = 0
 KICK = 0          # ufd index of the kicker
 
